@@ -549,3 +549,22 @@ Proof.
   unfold plain_byte in Hb. apply negb_true_iff, orb_false_iff in Hb as [B1 B2].
   cbn [decode_old_string]. rewrite B1, B2, (IH Hr). reflexivity.
 Qed.
+
+(* the name/value split is at the first '=': a name that itself contains '=' does not survive *)
+Lemma split_name_refuted :
+  exists name text : bytes, name <> [] /\ trim_space name = name /\
+    split_expr (name ++ [x20; x3d; x20] ++ text) <> Some (name, text).
+Proof.
+  exists [x61; x3d; x62], [x35]. split; [discriminate|]. split; [vm_compute; reflexivity|].
+  vm_compute. discriminate.
+Qed.
+
+(* ... and for a trimmed name without '=' it does *)
+Lemma split_at_eq_noeq n : forall acc rest, forallb (fun b => negb (beq b 61)) n = true ->
+  split_at_eq (n ++ x3d :: rest) acc = Some (rev acc ++ n, rest).
+Proof.
+  induction n as [|b n IH]; intros acc rest H; cbn [app split_at_eq].
+  - change (beq x3d 61) with true. cbv iota. rewrite app_nil_r. reflexivity.
+  - cbn [forallb] in H. apply andb_true_iff in H as [Hb Hn]. apply negb_true_iff in Hb. rewrite Hb.
+    rewrite (IH (b :: acc) rest Hn). cbn [rev]. rewrite <- app_assoc. reflexivity.
+Qed.
